@@ -906,6 +906,30 @@ func (hs *clientHandshakeState) establishKeys() error {
 	return nil
 }
 
+// [uTLS] recheckResumedSessionName repeats loadSession's host name check at the moment the server
+// resumes the session. With uTLS the session is loaded when the ClientHello is built, and the
+// name to verify may have been changed afterwards (SetSNI after BuildHandshakeState): the
+// certificate of the resumed session must match the name in force now.
+func (c *Conn) recheckResumedSessionName(session *SessionState) error {
+	if c.config.InsecureSkipVerify || session == nil || len(session.peerCertificates) == 0 {
+		return nil
+	}
+	var dnsName string
+	if len(c.config.InsecureServerNameToVerify) == 0 {
+		dnsName = c.config.ServerName
+	} else if c.config.InsecureServerNameToVerify != "*" {
+		dnsName = c.config.InsecureServerNameToVerify
+	}
+	if len(dnsName) == 0 {
+		return nil
+	}
+	if err := session.peerCertificates[0].VerifyHostname(dnsName); err != nil {
+		c.sendAlert(alertBadCertificate)
+		return &CertificateVerificationError{UnverifiedCertificates: session.peerCertificates, Err: err}
+	}
+	return nil
+}
+
 func (hs *clientHandshakeState) serverResumedSession() bool {
 	// If the server responded with the same sessionId then it means the
 	// sessionTicket is being used to resume a TLS session.
@@ -969,6 +993,11 @@ func (hs *clientHandshakeState) processServerHello() (bool, error) {
 	if hs.session.extMasterSecret != hs.serverHello.extendedMasterSecret {
 		c.sendAlert(alertHandshakeFailure)
 		return false, errors.New("tls: server resumed a session with a different EMS extension")
+	}
+
+	// [uTLS]
+	if err := c.recheckResumedSessionName(hs.session); err != nil {
+		return false, err
 	}
 
 	// Restore master secret and certificates from previous state
